@@ -5,6 +5,7 @@ real builders/loaders; `truth(case)` returns the canonical values computed from 
 (None where only the loaded tree defines the value: xml/csv/plist/pyobj/dataclass)."""
 import atexit
 import copy
+import random
 import os
 import shutil
 import tempfile
@@ -237,13 +238,32 @@ def gen_case(r, family, prof=None, ds=None, le=None):
         a = formats.common_data(r)
         x = r.random()
         b = copy.deepcopy(a) if x < 0.06 else (formats.mutate_common(r, a) if x < 0.85 else formats.common_data(r))
-        return {"family": family, "a": a, "b": b, "ds": ds, "le": le, "ta": r.choice(FILE_TYPES), "tb": r.choice(FILE_TYPES)}
+        if r.random() < 0.2:
+            # null, which all four of these formats can express (a YAML stream may even hold an empty document: "--- \n---")
+            seed = r.randrange(1 << 30)
+            a, b = _with_nulls(random.Random(seed), a), _with_nulls(random.Random(seed), b)
+        # (a pickle is loaded into a Python-AST wrapper, so it is only ever compared with another pickle)
+        ta = r.choice(FILE_TYPES)
+        tb = ta if ta == "pickle" else r.choice([t for t in FILE_TYPES if t != "pickle"])
+        return {"family": family, "a": a, "b": b, "ds": ds, "le": le, "ta": ta, "tb": tb}
     if family in ("plist", "dataclass", "pyobj"):
         p = gen.Profile("plist", strings="alpha", bool_with_01=False, numeric_strings=False, none=False, big_ints=False,
                         floats=True)
         a, b, ops = gen.pair(r, p)
         return {"family": family, "a": a, "b": b, "ds": ds, "le": le}
     raise ValueError(family)
+
+
+def _with_nulls(r, o, depth=0):
+    """Same document with a few list items / mapping values replaced by, or lists extended with, null."""
+    if isinstance(o, list):
+        out = [_with_nulls(r, v, depth + 1) if r.random() < 0.8 else None for v in o]
+        if r.random() < 0.4:
+            out.insert(r.randint(0, min(len(out), 2)), None)
+        return out
+    if isinstance(o, dict):
+        return {k: (_with_nulls(r, v, depth + 1) if r.random() < 0.85 else None) for k, v in o.items()}
+    return o
 
 
 class _Obj:
@@ -360,8 +380,12 @@ def shrink_case(case):
     fam = case["family"]
     a, b = case["a"], case["b"]
     if fam == "file":
+        if (case.get("ta"), case.get("tb")) != ("json", "json"):
+            c = dict(case)
+            c["ta"] = c["tb"] = "json"
+            yield c
         for t in ("ta", "tb"):
-            if case.get(t) != "json":
+            if case.get(t) not in ("json", "pickle") and "pickle" not in (case.get("ta"), case.get("tb")):
                 c = dict(case)
                 c[t] = "json"
                 yield c
